@@ -28,16 +28,16 @@ ASSUMPTIONS = [
     "X / x after a modifier in the same body (known finding C01-break-after-modifier-ignored) is not generated here",
 ]
 MIN_COUNTERS = {
-    "exit_depth_checked": {"quick": 1500, "thorough": 30000},
-    "boundary_checks": {"quick": 10000, "thorough": 200000},
-    "public_compared": {"quick": 500, "thorough": 10000},
-    "programs_with_break": {"quick": 400, "thorough": 8000},
+    "exit_depth_checked": {"quick": 1200, "thorough": 20000},
+    "boundary_checks": {"quick": 20000, "thorough": 300000},
+    "public_compared": {"quick": 800, "thorough": 14000},
+    "programs_with_break": {"quick": 500, "thorough": 9000},
 }
-UNIT_TIMEOUT = 1200
+UNIT_TIMEOUT = 150
 
 
 def units(tier, seed):
-    n_units = 160 if tier == "quick" else 1600
+    n_units = 120 if tier == "quick" else 1600
     return [{"kind": "random", "seed": seed, "idx": i, "n": 60 if tier == "quick" else 100} for i in range(n_units)]
 
 
@@ -134,6 +134,12 @@ def check_case(prog, inputs, res):
     counted = False
     brk = has_break(prog)
     # --- model-free monitors: only normally terminated programs make a claim
+    if not got["error"] and not got["exec_raised"] and got.get("unwinds"):
+        # an exception skipped a lambda/function epilogue and was swallowed further up (e.g. a TypeError
+        # inside LazyList.__len__ called by list() as a length hint): not a normally finishing program
+        res["skips"]["function-frame-left-by-swallowed-exception"] = \
+            res["skips"].get("function-frame-left-by-swallowed-exception", 0) + 1
+        return
     if not got["error"] and not got["exec_raised"]:
         res["evals"] += 1
         counted = True
@@ -183,10 +189,18 @@ def run_unit(unit):
         check_case(unit["prog"], unit["inputs"], res)
         return res
     rnd = random.Random(f"C12/{unit['seed']}/{unit['idx']}")
-    for _ in range(unit["n"]):
+    for j in range(unit["n"]):
         prog, inputs = gen_case(rnd)
+        if "only" in unit and unit["only"] != j:
+            continue
         check_case(prog, inputs, res)
     return res
+
+
+def split_unit(unit):
+    if unit.get("kind") == "random" and "only" not in unit:
+        return [dict(unit, only=j) for j in range(unit["n"])]
+    return None
 
 
 def classify(w):
